@@ -801,6 +801,11 @@ impl<'a, P: ProcessRun> PubPoint<'a, P> {
         // adds randomness to visiting the repositories, reducing peak load.
         let mut items_random: Vec<_> = collected.content.iter().collect();
         items_random.shuffle(&mut rand::rng());
+        #[cfg(routinator_verif)]
+        crate::verif::manifest_order(
+            self.cert.rpki_manifest().as_str(), &mut items_random,
+            |item| item.file().to_vec()
+        );
         let mut items = items_random.into_iter();
 
         let mut point_ok = true;
